@@ -110,6 +110,8 @@ CORPUS = [
     '<dtml-unless "x">a</dtml-unless>',
     '<dtml-in seq>\n<dtml-var sequence-item>\n</dtml-in>',
     '<dtml-in seq>\na\n<dtml-else>\nb\n</dtml-in seq>',
+    '<dtml-in seq>\na\n<dtml-else seq>\nb\n</dtml-in>',
+    '<dtml-in seq size=2 orphan=0>a<dtml-else seq>b</dtml-in seq>',
     '<dtml-in "seq" mapping no_push_item skip_unauthorized>\na\n</dtml-in>',
     '<dtml-in seq sort=a reverse prefix=p>\na\n</dtml-in>',
     '<dtml-in seq sort_expr="k" reverse_expr="r">\na\n</dtml-in>',
